@@ -5,6 +5,9 @@ set -u
 ID=$1; SRC=$2
 DST=/verif/seeded/$ID; mkdir -p $DST
 cp $SRC/patch.diff $SRC/demo.py $SRC/meta.json $DST/ 2>/dev/null
+# helper modules a demo imports (same directory)
+for h in $(grep -ohE "^(from|import) +[a-z_]+" $SRC/demo.py | awk '{print $2}' | sort -u); do [ -f $SRC/$h.py ] && cp $SRC/$h.py $DST/; done
+[ -f $SRC/patch.orig.diff ] && cp $SRC/patch.orig.diff $DST/
 WT=/dev/shm/verif-seedchk-$ID
 git -C /repo worktree remove --force $WT >/dev/null 2>&1; rm -rf $WT
 git -C /repo worktree add -q --detach $WT HEAD || exit 2
@@ -12,7 +15,7 @@ git -C /repo worktree add -q --detach $WT HEAD || exit 2
 git -C $WT apply --whitespace=nowarn $DST/patch.diff || { echo "patch does not apply" | tee -a $DST/verify.log; exit 2; }
 ( cd $WT && PYTHONPATH=$WT timeout 600 /venv/bin/python $DST/demo.py > $DST/demo_patched.log 2>&1; echo "demo on patched tree: exit $?" ) | tee -a $DST/verify.log
 if [ "${3:-}" != "nosuite" ]; then
-( cd $WT && PYTHONPATH=$WT timeout 3000 /venv/bin/python -m pytest -q -p no:cacheprovider --timeout=900 --continue-on-collection-errors --junitxml=/dev/shm/verif-seedchk-$ID.xml > /dev/shm/verif-seedchk-$ID.suite.log 2>&1
+( cd $WT && PYTHONPATH=$WT timeout 6000 /venv/bin/python -m pytest -q -p no:cacheprovider --timeout=900 --continue-on-collection-errors --junitxml=/dev/shm/verif-seedchk-$ID.xml > /dev/shm/verif-seedchk-$ID.suite.log 2>&1
   /venv/bin/python - <<PY | tee -a $DST/verify.log
 import json, xml.etree.ElementTree as ET
 sp=set(json.load(open('/root/.vp/BASELINE.json'))['stable_pass'])
